@@ -2,6 +2,7 @@ import CM.Proofs.Refs
 import CM.Proofs.Label
 import CM.Spec.Label
 import CM.Proofs.RefKeysRewrite
+import CM.Proofs.ParseWholeMain
 /-
 C12 — references resolve by normalised label; first definition wins.
 Proved here: clause (b) for the extraction (`Extract` = first definition in document pre-order, for every
@@ -11,8 +12,8 @@ the returned map is the extraction from the root blocks in order - from the bloc
 trees because `Rewrite` never changes what `Extract` reads (`parse_refs_eq_extractAll_final`); its keys are pairwise different,
 non-empty and in NORMAL FORM (`parse_keys_normalized`, under the two table facts `FoldOK` about `cases.Fold`, checked per label
 at run time); a key's value is the first definition in document order (`parse_lookup_first`); the label of every USE is
-normalised by the same function (`use_label_eq_spec`, `use_label_fixed`). Still monitored only: that a reference node exists iff
-its normalised label is a key (needs an invariant of the inline parser's bracket handling).
+normalised by the same function (`use_label_eq_spec`, `use_label_fixed`). every reference node names a key of the map (`parse_linkReference_has_key`, session 4 second wave). Still decided on generated
+documents only: the converse (a use whose normalised label is a key does become a reference node) and the matching relation.
 -/
 namespace CM.Props.C12
 open CM CM.Model CM.Proofs
@@ -110,6 +111,25 @@ theorem use_label_fixed {fold : Bytes → Bytes} (hf : FoldOK fold) (src : Bytes
 open CM.Proofs.RK in
 /-- The fold hypotheses are satisfiable by a fold that is not the identity. -/
 example : FoldOK asciiLower := FoldOK_asciiLower
+
+open CM.Proofs.PW CM.Spec in
+/-- **Every reference-style link or image node of a parsed tree names a key present in the returned map** (whole `Parse`, every
+    input, every root on which the inline phase completed): the key a link or image refers to (`LinkReference()`: its own `ref`
+    for collapsed and shortcut references, its label child's for full references) is in the map. From the inline-phase invariant
+    "`ref` is only written behind `MatchReference`" and the block-phase fact that the labels of definitions are keys. -/
+theorem parse_linkReference_has_key (x : PExt) (ix : IExt) (inp : Bytes) :
+    ∀ pr ∈ (parseDoc x ix inp).roots, ∀ t', pr.tree = .ok t' →
+      ∀ u ∈ T.nodes t', Node.isLinkOrImage u = true → Node.linkReference u ≠ [] →
+        ((parseDoc x ix inp).refs.lookup (Node.linkReference u)).isSome = true :=
+  PW.parse_linkReference_has_key x ix inp
+
+open CM.Proofs.PW CM.Spec in
+/-- The same for every node carrying a `ref` attribute (links, images, link labels, labels of definitions). -/
+theorem parse_reference_nodes_have_keys (x : PExt) (ix : IExt) (inp : Bytes) :
+    ∀ pr ∈ (parseDoc x ix inp).roots, ∀ t', pr.tree = .ok t' →
+      ∀ u ∈ T.nodes t', (T.isI u IK.link = true ∨ T.isI u IK.image = true ∨ T.isI u IK.linkLabel = true) →
+        u.label.ref ≠ [] → ((parseDoc x ix inp).refs.lookup u.label.ref).isSome = true :=
+  PW.parse_reference_nodes_have_keys x ix inp
 
 -- Non-vacuity
 private def b (s : String) : Bytes := s.toUTF8.toList
